@@ -161,6 +161,12 @@ def layout(spec):
             else:
                 per[cfgno].append((sid, esc(body), False))
     for cfgno in per:
+        if spec.get('shuffle') == 4 and len(per[cfgno]) > 60:
+            # the deterministic big file: stale entries at positions 1 and 40
+            live_ = [e for e in per[cfgno] if e[2]]
+            st_ = [e for e in per[cfgno] if not e[2]]
+            per[cfgno] = live_[:1] + st_[:1] + live_[1:40] + st_[1:] + live_[40:]
+            continue
         if rr.random() < 0.6:
             rr.shuffle(per[cfgno])
         else:
@@ -359,3 +365,12 @@ def o_rewrite_preserves(w):
     if l2.writes or l2.removed or after2 != after:
         return 'a second Clean changed something: w=%r d=%r' % (l2.writes, l2.removed)
     return None
+
+
+def big_clean_spec(g, mode=(False, ''), sort='-'):
+    """a used snapshot file of about 12 KiB: 80 entries of one test, an obsolete entry near the top,
+    another one in the middle (ids must survive the scanner's buffer refills)"""
+    calls = [(1, b'value %03d %s' % (k, b'v' * (90 + k % 11))) for k in range(80)]
+    stale = [(1, b'TestGoneEarly/sub - 1', b'old early'), (1, b'TestGoneMiddle - 3', b'old middle\nsecond line')]
+    return dict(cfgs=[cfg_line(1, 'snaps')], nfiles=1, tests=[(b'TestBigClean', calls)], stale=stale, count=1, shuffle=4,
+                stale_files=[], decoys=False, mode=mode, sort=sort, flags=set())
